@@ -140,6 +140,11 @@ def main():
         tests.append(("ENUCoords.toECEFCoords", "r3 (Gen.ObsCoords.ENUCoords_toECEFCoords FT.pi FT.sqrt FT.sin FT.cos FT.atan2 FT.pow %s %s %s %s %s %s)" % (
                       lf(e_), lf(n_), lf(u_), lf(bE.X), lf(bE.Y), lf(bE.Z)),
                       lambda e_=e_, n_=n_, u_=u_, bE=bE: ENUCoords(e_, n_, u_).toECEFCoords(bE), lambda v: f3(v, "XYZ")))
+        a3, b3 = [num() for _ in range(3)], [num() for _ in range(3)]
+        tests.append(("ENUCoords.distance2DTo", "r1 (Gen.ObsCoords.ENUCoords_distance2DTo FT.sqrt FT.pow %s %s)" % (" ".join(lf(t) for t in a3), " ".join(lf(t) for t in b3)),
+                      lambda a3=a3, b3=b3: ENUCoords(*a3).distance2DTo(ENUCoords(*b3)), pf))
+        tests.append(("ENUCoords.__sub__", "r3 (Gen.ObsCoords.ENUCoords_sub %s %s)" % (" ".join(lf(t) for t in a3), " ".join(lf(t) for t in b3)),
+                      lambda a3=a3, b3=b3: ENUCoords(*a3) - ENUCoords(*b3), lambda v: f3(v, "ENU")))
         yr = rng.choice([rng.randint(-50, 2500), rng.choice([1900, 2000, 2100, 1600, 4, 100, 400, 0])])
         tests.append(("isLeapYear", "rb (Gen.ObsTime.isLeapYear (%d))" % yr, lambda yr=yr: ObsTime.isLeapYear(yr), lambda v: "true" if v else "false"))
     src = PRE + "".join("#eval IO.println (%s)\n" % t[1] for t in tests)
